@@ -130,23 +130,37 @@ theorem lowS_spec (s : Nat) (h0 : 0 < s) (hn : s < Secp256k1.n) :
   unfold Spec.Keys.lowS Spec.Keys.LowS Spec.Keys.halfOrder Spec.Keys.n
   refine ⟨?_, ?_, ?_, ?_, ?_⟩ <;> (repeat' split) <;> omega
 
-/-- `signatureToLowS_spec`: for ANY implementation of the three OpenSSL calls with `d2i sig = (r, s)`, the
-    order of secp256k1 and an encoder that writes at least one byte, the steps of `signature_to_low_s`
-    (`BN_rshift1`, `BN_cmp … > 0`, `BN_sub`, `i2d`, the `derlen == 0` test) return the encoding of
-    `(r, lowS s)` — not `None`, no exception -/
+/-- `signatureToLowS_spec`: for ANY implementation of the three OpenSSL calls with `d2i sig = (r, s)`,
+    `s ≤ n`, the order of secp256k1 and an encoder that writes at least one byte, the steps of
+    `signature_to_low_s` (`BN_rshift1`, `BN_cmp … > 0`, `BN_sub`, `i2d`, the `derlen == 0` test) return the
+    encoding of `(r, lowS s)` — not `None`, no exception.  (For `s = n` that is `(r, 0)`.) -/
 theorem signatureToLowS_spec (C : Model.Keys.SigCodec) (sig : Bytes) (r s : Nat)
-    (hd : C.d2i sig = some (r, s)) (ho : C.order = Secp256k1.n) (hi : ∀ r s, (C.i2d r s).length ≠ 0) :
+    (hd : C.d2i sig = some (r, s)) (hs : s ≤ Secp256k1.n) (ho : C.order = Secp256k1.n)
+    (hi : ∀ r s, (C.i2d r s).length ≠ 0) :
     Model.Keys.signatureToLowSWith C sig = .ok (some (C.i2d r (Spec.Keys.lowS s))) := by
   unfold Model.Keys.signatureToLowSWith Spec.Keys.lowS Spec.Keys.halfOrder Spec.Keys.n
   rw [hd]
   have hh : Secp256k1.n >>> 1 = Secp256k1.n / 2 := by rw [Nat.shiftRight_eq_div_pow]
-  simp only [ho, hh, hi, if_false]
+  have hng : ¬ (s > Secp256k1.n / 2 ∧ s > Secp256k1.n) := by omega
+  simp only [ho, hh, hi, hng, if_false]
+
+/-- above the order the subtraction goes negative and the code ends in a ValueError (from
+    `create_string_buffer(-1)`); off the `sign` domain, mirrored so that the model is not silently total -/
+theorem signatureToLowS_above_order (C : Model.Keys.SigCodec) (sig : Bytes) (r s : Nat)
+    (hd : C.d2i sig = some (r, s)) (hs : Secp256k1.n < s) (ho : C.order = Secp256k1.n) :
+    Model.Keys.signatureToLowSWith C sig = .error .valueerr := by
+  unfold Model.Keys.signatureToLowSWith
+  rw [hd]
+  have hh : Secp256k1.n >>> 1 = Secp256k1.n / 2 := by rw [Nat.shiftRight_eq_div_pow]
+  have hg : s > Secp256k1.n / 2 ∧ s > Secp256k1.n := by omega
+  simp only [ho, hh, hg, and_self, if_true]
 
 /-- under the contract the library is used with (strict DER both ways): the strict DER encoding of
     `(r, lowS s)` -/
-theorem signatureToLowS_reference (sig : Bytes) (r s : Nat) (h : Secp256k1.derDecodeStrict sig = some (r, s)) :
+theorem signatureToLowS_reference (sig : Bytes) (r s : Nat) (h : Secp256k1.derDecodeStrict sig = some (r, s))
+    (hs : s ≤ Secp256k1.n) :
     Model.Keys.signatureToLowS sig = .ok (some (Secp256k1.derEncode r (Spec.Keys.lowS s))) :=
-  signatureToLowS_spec Model.Keys.SigCodec.reference sig r s h rfl
+  signatureToLowS_spec Model.Keys.SigCodec.reference sig r s h hs rfl
     (fun r s => by show (Secp256k1.derEncode r s).length ≠ 0; rw [derEncode_length]; omega)
 
 /-- nothing parsed: the code goes on to `BN_cmp` with a NULL operand — recorded as a crash outcome, not
@@ -175,7 +189,7 @@ theorem sign_spec (hash raw : Bytes) (r s : Nat) (hh : hash.length = 32)
     · have e := der_strict raw r s hraw
       have : Spec.Keys.lowS s = s := hfix hl
       simp [hl, this, e, bind, Except.bind, pure, Except.pure]
-    · simp [hl, bind, Except.bind, signatureToLowS_reference raw r s hraw]
+    · simp [hl, bind, Except.bind, signatureToLowS_reference raw r s hraw (by omega)]
   · rw [isLowDer_iff_encode r _ hr hls]
     simp [hlow]
 
@@ -216,6 +230,27 @@ theorem wif_wrong_version (chainVer ver : Nat) (payload : Bytes) (h : ver ≠ ch
     contract of Model/Keys.lean, it proves nothing about the library; "public key = k·G" is T2 only -/
 theorem pub_eq_reference (secret : Bytes) (c : Bool) :
     Model.Keys.pubOfSecret secret c = Secp256k1.encode (Secp256k1.mul (beNat secret) Secp256k1.G) c := rfl
+
+/-- for every secret whose point is not the point at infinity, `is_compressed` (= `len(pub) == 33`) is
+    the flag the key was built with, and the key is "fully valid" in the library's sense only if … see
+    `o15_infinity_key` for the exception -/
+theorem isCompressed_of_affine (secret : Bytes) (c : Bool) (x y : Nat)
+    (h : Secp256k1.mulG (beNat secret) = .aff x y) :
+    Model.Keys.isCompressed (Model.Keys.pubOfSecret secret c) = c := by
+  unfold Model.Keys.isCompressed Model.Keys.pubOfSecret Secp256k1.pubkeyOf
+  rw [h]
+  cases c <;> simp [Secp256k1.encode, be32_length]
+
+/-- **Observation O15 (outside the property's domain [1, n−1] / 33-or-65 bytes).**  The secret 0 (and,
+    by `n_mul_G`, the secret n) is accepted silently: the "public key" is the one-byte infinity encoding
+    `00`, the library reports it fully valid (OpenSSL parses `00`), and `is_compressed` is false whatever
+    flag was asked for — so the WIF round trip of such a secret flips the compression flag. -/
+theorem o15_infinity_key (c : Bool) :
+    Model.Keys.pubOfSecret (List.replicate 32 0) c = [0] ∧
+    Model.Keys.pubOfSecret (beBytes 32 Secp256k1.n) c = [0] ∧
+    Model.Keys.isFullyValid [0] = true ∧ Model.Keys.isCompressed [0] = false ∧
+    Secp256k1.decode [0] = none := by
+  cases c <;> decide +kernel
 
 /-! ### SEC 1 public-key strings: what the reference `decode` (the Spec of `is_fullyvalid`) accepts -/
 
